@@ -5,6 +5,7 @@
     and off is the prefix-sum index of the row lengths. *)
 From Cooler Require Import Model.Query Proofs.PixelsProofs Proofs.QueryProofs Proofs.SpansProofs Proofs.QueryMain.
 From Cooler Require Import Gen.Translated Proofs.GenBridge.
+From Cooler Require Model.Index Proofs.IndexProofs Proofs.EndToEnd.
 From Coq Require Import Sorted Permutation.
 
 (** pixel output (as_pixels / direct engine): exactly the stored records inside the window, in storage order,
@@ -131,6 +132,24 @@ Print Assumptions C03_process_scalar_spec.
 Theorem C03_valid_check_sound : forall n epx off, valid_csr_b n epx off = true -> ValidCSR n epx off.
 Proof. exact valid_csr_b_sound. Qed.
 Print Assumptions C03_valid_check_sound.
+
+(** integration with C02: every stored collection that satisfies the published schema (the ValidCSR of property C02,
+    which `create`, merge, coarsen, ... establish) meets the hypotheses above, so on every such collection the pixel query
+    returns exactly the stored records in the window and the matrix query the sub-block of the symmetric matrix,
+    each coordinate once, for every window and read chunk size *)
+Theorem C03_on_every_schema_valid_collection : forall (c : Index.cooler) cs i0 i1 j0 j1,
+  IndexProofs.ValidCSR c -> 1 <= cs ->
+  0 <= i0 -> i0 <= i1 -> i1 <= Index.nbins c -> 0 <= j0 -> j0 <= j1 -> j1 <= Index.nbins c ->
+  let epx := epx_of (Index.pixels_of c) in
+  let off := Index.bin1_offset c in
+  direct_query epx off (get_spans off cs) (i0, i1, j0, j1) = filter (fun r => in_window (i0, i1, j0, j1) (snd r)) epx /\
+  (Index.symmetric_upper c = true ->
+   exists out, fill_lower_query epx off (get_spans off cs) (i0, i1, j0, j1) = Some out /\
+     NoDup (keys (map snd out)) /\
+     dense_of out (i0, i1, j0, j1) =
+     map (fun i => map (fun j => symm (Index.pixels_of c) i j) (zrange j0 (Z.to_nat (j1 - j0)))) (zrange i0 (Z.to_nat (i1 - i0)))).
+Proof. exact EndToEnd.stored_cooler_range_queries. Qed.
+Print Assumptions C03_on_every_schema_valid_collection.
 
 (** tie by translation: the decision logic regenerated from /repo's source on this run (coq/Gen/Translated.v,
     written by tools/py2v.py) is the model the theorems above are about *)
